@@ -41,6 +41,11 @@ func TagContext(ctx context.Context, tag string) context.Context {
 }
 
 func YieldCtx(ctx context.Context, site string, id int64) {
+	if ctx.Err() != nil {
+		// The owner of this work has already returned (its context is cancelled): whatever
+		// this goroutine still does is invisible to the query, so it is not a scheduling point.
+		return
+	}
 	if f := YieldFn; f != nil {
 		if tag, ok := ctx.Value(tagKey{}).(string); ok {
 			site = site + ":" + tag
